@@ -21,6 +21,9 @@ struct CryptoLog {
 	unsigned long recycled;       // algorithms recycled
 };
 static CryptoLog crypto_log;
+// ghost: what the check-value computations hash / encrypt with (first bytes and length of the last hash input; last symmetric key; algorithm kinds)
+struct KcvSeen { unsigned long hashGets, hashUpdates, symGets, lastSymAlgo; size_t hashLen, keyLen; unsigned char hashIn[4], key[4]; };
+static KcvSeen kcv_seen;
 #ifndef MODEL_OUT_MAX
 #define MODEL_OUT_MAX 8
 #endif
@@ -57,7 +60,7 @@ class ModelSym : public SymmetricAlgorithm {
 public:
 	size_t blockSize;
 	virtual bool encryptInit(const SymmetricKey* key, const SymMode::Type mode, const ByteString& IV, bool padding, size_t counterBits, const ByteString& aad, size_t tagBytes)
-	{ crypto_log.calls++; crypto_log.initCalls++; vtrace(mode); vtrace(padding); vtrace(counterBits); vtrace(tagBytes); vtrace(IV.size()); return nondet_bool(); }
+	{ crypto_log.calls++; crypto_log.initCalls++; vtrace(mode); vtrace(padding); vtrace(counterBits); vtrace(tagBytes); vtrace(IV.size()); if (key) { kcv_seen.keyLen = key->getKeyBits().size(); for (size_t i = 0; i < 4; i++) kcv_seen.key[i] = i < kcv_seen.keyLen ? key->getKeyBits().const_byte_str()[i] : 0; } return nondet_bool(); }
 	virtual bool decryptInit(const SymmetricKey* key, const SymMode::Type mode, const ByteString& IV, bool padding, size_t counterBits, const ByteString& aad, size_t tagBytes)
 	{ crypto_log.calls++; crypto_log.initCalls++; vtrace(mode); vtrace(padding); vtrace(counterBits); vtrace(tagBytes); vtrace(IV.size()); return nondet_bool(); }
 	virtual bool encryptUpdate(const ByteString& data, ByteString& out) { crypto_log.calls++; crypto_log.dataCalls++; model_fill(out, nondet_ulong() % (MODEL_OUT_MAX + 1)); return nondet_bool(); }
@@ -94,6 +97,8 @@ public:
 };
 static ModelPub model_pub; static ModelPriv model_priv;
 
+static PrivateKey* model_new_priv;        // handed out by newPrivateKey when a harness installs one (a typed key object the code under test casts to)
+static SymmetricKey* model_secret;        // handed out by deriveKey when a harness installs one (default: derivation fails)
 static AsymmetricKeyPair* model_keypair;   // handed out by generateKeyPair when a harness installs one (default: generation fails)
 class ModelAsym : public AsymmetricAlgorithm {
 public:
@@ -110,12 +115,12 @@ public:
 	virtual bool generateKeyPair(AsymmetricKeyPair** pp, AsymmetricParameters* p, RNG* rng) { crypto_log.calls++; if (model_keypair && nondet_bool()) { *pp = model_keypair; return true; } return false; }
 	virtual unsigned long getMinKeySize() { return minKey; }
 	virtual unsigned long getMaxKeySize() { return maxKey; }
-	virtual bool deriveKey(SymmetricKey** pp, PublicKey* pub, PrivateKey* priv) { crypto_log.calls++; return false; }
+	virtual bool deriveKey(SymmetricKey** pp, PublicKey* pub, PrivateKey* priv) { crypto_log.calls++; if (model_secret && nondet_bool()) { *pp = model_secret; return true; } return false; }
 	virtual bool reconstructKeyPair(AsymmetricKeyPair** pp, ByteString& s) { return false; }
 	virtual bool reconstructPublicKey(PublicKey** pp, ByteString& s) { return false; }
 	virtual bool reconstructPrivateKey(PrivateKey** pp, ByteString& s) { return false; }
 	virtual PublicKey* newPublicKey() { return &model_pub; }
-	virtual PrivateKey* newPrivateKey() { return &model_priv; }
+	virtual PrivateKey* newPrivateKey() { return model_new_priv ? model_new_priv : &model_priv; }
 	virtual void recycleKeyPair(AsymmetricKeyPair* k) { crypto_log.recycled++; }
 	virtual void recycleParameters(AsymmetricParameters* k) { crypto_log.recycled++; }
 	virtual void recyclePublicKey(PublicKey* k) { crypto_log.recycled++; }
@@ -142,7 +147,7 @@ public:
 class ModelHash : public HashAlgorithm {
 public:
 	virtual bool hashInit() { crypto_log.calls++; crypto_log.initCalls++; return nondet_bool(); }
-	virtual bool hashUpdate(const ByteString& d) { crypto_log.calls++; crypto_log.dataCalls++; return nondet_bool(); }
+	virtual bool hashUpdate(const ByteString& d) { crypto_log.calls++; crypto_log.dataCalls++; kcv_seen.hashUpdates++; kcv_seen.hashLen = d.size(); for (size_t i = 0; i < 4; i++) kcv_seen.hashIn[i] = i < d.size() ? d.const_byte_str()[i] : 0; return nondet_bool(); }
 	virtual bool hashFinal(ByteString& h) { crypto_log.calls++; crypto_log.dataCalls++; model_fill(h, hashSize); return nondet_bool(); }
 	virtual int getHashSize() { return (int)hashSize; }
 	size_t hashSize;
@@ -160,11 +165,11 @@ static bool model_factory_null;   // the factory may also refuse (returns NULL)
 
 class ModelFactory : public CryptoFactory {
 public:
-	virtual SymmetricAlgorithm* getSymmetricAlgorithm(SymAlgo::Type a) { crypto_log.factoryGets++; crypto_log.lastKind = a; if (model_factory_null) return NULL; model_sym.blockSize = (a == SymAlgo::AES) ? 16 : 8; return &model_sym; }
+	virtual SymmetricAlgorithm* getSymmetricAlgorithm(SymAlgo::Type a) { crypto_log.factoryGets++; crypto_log.lastKind = a; kcv_seen.symGets++; kcv_seen.lastSymAlgo = a; if (model_factory_null) return NULL; model_sym.blockSize = (a == SymAlgo::AES) ? 16 : 8; return &model_sym; }
 	virtual void recycleSymmetricAlgorithm(SymmetricAlgorithm* t) { crypto_log.recycled++; }
 	virtual AsymmetricAlgorithm* getAsymmetricAlgorithm(AsymAlgo::Type a) { crypto_log.factoryGets++; crypto_log.lastKind = a; if (model_factory_null) return NULL; return &model_asym; }
 	virtual void recycleAsymmetricAlgorithm(AsymmetricAlgorithm* t) { crypto_log.recycled++; }
-	virtual HashAlgorithm* getHashAlgorithm(HashAlgo::Type a) { crypto_log.factoryGets++; crypto_log.lastKind = a; if (model_factory_null) return NULL; return &model_hash; }
+	virtual HashAlgorithm* getHashAlgorithm(HashAlgo::Type a) { crypto_log.factoryGets++; crypto_log.lastKind = a; kcv_seen.hashGets++; if (model_factory_null) return NULL; return &model_hash; }
 	virtual void recycleHashAlgorithm(HashAlgorithm* t) { crypto_log.recycled++; }
 	virtual MacAlgorithm* getMacAlgorithm(MacAlgo::Type a) { crypto_log.factoryGets++; crypto_log.lastKind = a; if (model_factory_null) return NULL; return &model_mac; }
 	virtual void recycleMacAlgorithm(MacAlgorithm* t) { crypto_log.recycled++; }
